@@ -115,4 +115,10 @@ def playback(repo_copy, pkg, flags, h):
         vals.append([int(x) for x in m.group(1).split(",") if x.strip()])
     if not vals:
         return None
-    return {"kani_any_values_in_order": vals, "harness": h["harness"]}
+    d = {"harness": h["harness"],
+         "note": "values of every kani::any() of the harness, in call order, little-endian bytes per value"}
+    if all(len(v) == 1 for v in vals):
+        d["kani_any_bytes_in_order"] = [v[0] for v in vals]
+    else:
+        d["kani_any_values_in_order"] = vals
+    return d
